@@ -230,6 +230,32 @@ def mass_balance(ctx, P=2, n=2, E=1, sigma="all", infinite=(True, True, True)):
 
 
 
+def process_x(ctx, P=3, n=3, sigma="all", rdf=(0, 1, 2)):
+    """PrecipitateModel._processX (classes at or below the driving-force limit index and below minRadius are emptied):
+    every phase is treated by its own limit, wherever it is listed"""
+    D = phase_inputs(ctx, P, n, N=1)
+    sh = shared_inputs(ctx, 1)
+    rmin = ctx.real("minRadius", (0.5, 1.5))
+
+    def call(order):
+        m = mk_model(ctx, D, order, n, sh, N=1)
+        m.constraints.minRadius = rmin
+        for p, k in enumerate(order):
+            m.RdrivingForceIndex[p] = rdf[k]
+        x = [D[k]["x"].copy() for k in order]
+        m._processX(x)
+        return {k: x[p] for p, k in enumerate(order)}
+    ident = tuple(range(P))
+    ref = call(ident)
+    for k in range(P):
+        ctx.observe("x%d" % k, ref[k])
+    for s_ in _perms(P, sigma):
+        got = call(s_)
+        for k in range(P):
+            for i in range(n):
+                ctx.prove("size distribution of a phase after _processX does not depend on where the phase is listed", ctx.eq(got[k][i], ref[k][i]))
+
+
 # =====================================================================================================================
 #  Part 2: element order
 # =====================================================================================================================
@@ -507,6 +533,8 @@ def driving_force(ctx, ref="FE", solutes=("CR", "NI"), method="tangent", sigma="
         with _Patched(be):
             dg, comp = th.getDrivingForce(x, T, precPhase="PREC")
         check_inputs(ctx, be, xval, T, n0)
+        for i, a in enumerate(user_sol):
+            ctx.prove("the composition array handed to getDrivingForce still holds, in slot i, the user's i-th solute (nothing else changes)", ctx.eq(x[i], xval[a]))
         comp = np.atleast_1d(comp)
         ctx.prove("precipitate composition has one slot per solute", len(comp) == len(user_sol))
         # the precipitate composition set the result was read from: the last PREC set the backend handed out
@@ -710,6 +738,72 @@ def site_defaults(ctx, solutes=("AL", "CR"), sigma="all", first="composition", d
                 ctx.prove("default nucleation site density is the same for every listing order of the solutes [%s]" % k, ctx.eq(got[k], first_got[k]))
 
 
+def constructor_lists(ctx, ref="NI", solutes=("AL", "CR"), ordered=True, nobj=2):
+    """the real GeneralThermodynamics.__init__ (-> _buildThermoModels, _forceDisorder, _buildMobilityModels) on a stand-in
+    database with pycalphad's Model / PhaseRecordFactory replaced by recorders: the caller's lists of elements and phases
+    are unchanged afterwards, and objects built from the same lists for the other solute orders see the same matrix and
+    precipitate roles"""
+    from harness.c10_extra import _Database, _Phase
+    mat, prec = "FCC_A1", "FCC_L12"
+    db = _Database()
+    hints = {"ordered_phase": prec, "disordered_phase": mat} if ordered else {}
+    db.phases[mat] = _Phase(mat, hints); db.phases[prec] = _Phase(prec, hints)
+    vals = ctx.reals("param", 3, (0.5, 2.0))
+    for i, (ph, t) in enumerate(((mat, "G"), (mat, "MQ"), (prec, "G"))):
+        db._parameters.insert({"phase_name": ph, "parameter_type": t, "parameter_order": 0, "constituent_array": ((ref,) + tuple(solutes), ("VA",)),
+                               "diffusing_species": ref if t == "MQ" else None, "parameter": vals[i]})
+    ctx.observe("param", vals)
+    built = []
+
+    class _Model:
+        def __init__(self, dbf, comps, phase, parameters=None):
+            built.append((type(self).__name__, tuple(comps), phase)); self.phase = phase
+
+    class _Extra(_Model): pass
+    class _Mob(_Model): pass
+
+    class _Fun:
+        func = staticmethod(lambda dof: 0.0)
+
+    class _PRF:
+        def __init__(self, dbf, comps, state_variables, models, parameters=None):
+            self.models = models; self.comps = list(comps)
+
+        def __getitem__(self, phase):
+            return types.SimpleNamespace(nonvacant_elements=sorted(set(self.comps) - {"VA"}))
+
+        def get_phase_property(self, phase, name, include_grad=False, include_hess=False):
+            return _Fun()
+    phases = [mat, prec]                 # ONE list object, handed to every constructor (as a script that loops over solute orders does)
+    phases0 = list(phases)
+    tab = [(TH, "Model", _Model), (TH, "ExtraGibbsModel", _Extra), (TH, "MobilityModel", _Mob), (TH, "PhaseRecordFactory", _PRF)]
+    saved = [(m_, n_, m_.__dict__[n_]) for m_, n_, _ in tab]
+    first = None
+    try:
+        for m_, n_, f_ in tab:
+            setattr(m_, n_, f_)
+        for user_sol in el_orders(solutes, "all")[:nobj]:
+            elements = [ref] + list(user_sol)
+            elements0 = list(elements)
+            del built[:]
+            th = MCT(db, elements, phases, drivingForceMethod="tangent")
+            ctx.prove("the caller's list of phases is unchanged by the constructor", phases == phases0)
+            ctx.prove("the caller's list of elements is unchanged by the constructor", elements == elements0)
+            roles = {"matrix": th.phases[0], "precipitates": tuple(th.phases[1:]), "ordered": tuple(sorted(th.orderedPhase.items())),
+                     "models": tuple(sorted((b[0], b[2]) for b in built)), "mobility phases": tuple(sorted(p_ for p_ in th.mobCallables if th.mobCallables[p_] is not None))}
+            ctx.prove("the object lists the user's elements in the user's order (+ VA)", th.elements == elements0 + ["VA"] and all(b[1] == tuple(elements0 + ["VA"]) for b in built))
+            ctx.prove("matrix phase is the disordered copy exactly when the precipitate is its ordered form",
+                      th.phases[0] == (("DIS_" + mat) if ordered else mat) and th.orderedPhase == {prec: bool(ordered)})
+            if first is None:
+                first = roles
+            else:
+                for k in sorted(roles):
+                    ctx.prove("an object built from the same lists for another solute order sees the same matrix / precipitate roles [%s]" % k, roles[k] == first[k])
+    finally:
+        for m_, n_, f_ in saved:
+            setattr(m_, n_, f_)
+
+
 _NAMESETS = [("AL", ["CR", "NI"]), ("FE", ["CR", "NI"]), ("ZR", ["CR", "NI"]), ("AL", ["CR", "NB", "TI"]), ("MO", ["CR", "NB", "TI"]), ("ZR", ["C", "NB", "TI"])]
 _FE = [GT._getConditions, GT._setupSubModels, GT.getLocalEq, GT.getEq, GT.getInterdiffusivity, GT._interdiffusivitySingle, GT.getTracerDiffusivity,
        GT._tracerDiffusivitySingle, GT.getDrivingForce, GT._getDrivingForceSampling, GT._getDrivingForceApprox, GT._getDrivingForceCurvature,
@@ -795,6 +889,17 @@ HARNESSES = [
                                  for h in ("wiener upper", "labyrinth") for r, so in _NAMESETS]
                                 + [{"ref": "FE", "solutes": ["CR", "N"], "homog": "wiener lower"}, {"ref": "NI", "solutes": ["B", "CR", "H"], "sigma": "cycle", "_opts": {"ob_timeout": 60.0}},
                                    {"ref": "FE", "solutes": ["CR", "MN", "N"], "_opts": {"ob_timeout": 60.0}}]}),
+    Harness("C11.process_x", process_x, functions=[PrecipitateModel._processX], assumptions=_AP + ["minRadius symbolic; driving-force limit index per phase a parameter"],
+            bounds={"phases": "P (all orders)", "size classes": "n"},
+            params={"quick": [{"P": 2, "n": 3, "rdf": [1, 0]}, {"P": 3, "n": 3, "rdf": [0, 1, 2]}, {"P": 3, "n": 2, "rdf": [0, 0, 0]}],
+                    "thorough": [{"P": 3, "n": 4, "rdf": [2, 0, 1]}, {"P": 3, "n": 4, "rdf": [0, 3, 1]}]}),
+    Harness("C11.constructor_lists", constructor_lists,
+            functions=[GT.__init__, GT._buildThermoModels, GT._forceDisorder, GT._buildMobilityModels, GT.setDrivingForceMethod, MCT.__init__, MCT.clearCache],
+            assumptions=["database: stand-in with phases (name, model_hints) and a parameter table searched with the real tinydb queries"],
+            stubs=["pycalphad Model / ExtraGibbsModel / MobilityModel / PhaseRecordFactory: recorders of (elements, phase) they are built for"],
+            bounds={"objects built from the same lists": "nobj", "solutes": "2-3"},
+            params={"quick": [{"ordered": True}, {"ordered": False}, {"ordered": True, "solutes": ["AL", "CR", "TI"], "nobj": 3}],
+                    "thorough": [{"ordered": o, "solutes": so, "nobj": n_} for o in (True, False) for so, n_ in ((["AL", "CR"], 2), (["AL", "CR", "TI"], 6))]}),
     Harness("C11.site_defaults", site_defaults,
             functions=[PrecipitateModel.setInitialComposition, PrecipitateModel.setVolumeAlpha, PrecipitateModel.setNucleationDensity, PrecipitateModel.setNucleationSite,
                        MatrixParameters.update, NUC.NucleationSiteParameters.setBulkDensityFromComposition, NUC.NucleationSiteParameters.setNucleationDensity,
